@@ -544,9 +544,20 @@ class Point:
             r = self.mask_hook(x, self)
             if r is not None:
                 return (int(bool(r)), 0)
-        # decide the comparison with the Legendre character as the sign of (a - b)
         if not hasattr(self, 'free_masks'): self.free_masks = set()
         self.free_masks.add(x.uid)
+        # An order comparison nobody decides: every sample point carries, next to its field values, one real valuation of the atoms (positive atoms log-uniform over
+        # 18 decades, the others of either sign); all comparisons at this point are decided on that one real point, so they are consistent with each other
+        # (x < 1 and x > 2 never hold together) while the arms are still compared as identities in the field.
+        if x.val in ('<', '<=', '>', '>=') and getattr(self, 'order_ok', True):
+            try:
+                fa = self.order_eval(x.args[0]); fb = self.order_eval(x.args[1])
+                if fa == fa and fb == fb and abs(fa.imag) < 1e-300 and abs(fb.imag) < 1e-300 and abs(fa.real) != float('inf') and abs(fb.real) != float('inf') and fa.real != fb.real:
+                    dlt = fa.real - fb.real
+                    return (int({'<': dlt < 0, '<=': dlt <= 0, '>': dlt > 0, '>=': dlt >= 0}[x.val]), 0)
+            except (AnalysisError, OverflowError, ValueError, ZeroDivisionError, RecursionError):
+                pass
+        # fallback: the Legendre character as the sign of (a - b)
         a = memo_get(self, x.args[0]); b = memo_get(self, x.args[1])
         if x.val in ('==', '!='):
             same_ = (a[0] - b[0]) % P == 0 and (a[1] - b[1]) % P == 0          # equality is defined for complex values too
@@ -611,11 +622,11 @@ class Point:
                     raise Resample()
                 r_ = pow(n2, (P + 1) // 4, P)
                 return (r_ if legendre(r_) == 1 else (-r_) % P, 0)
-            return (a[0] * legendre(a[0]) % P, 0)
+            return (a[0] * self.real_sign(x.args[0], a) % P, 0)
         if name == 'sign':
             if a[1] != 0:
                 raise AnalysisError('sign of a non-real value')
-            return (legendre(a[0]) % P, 0)
+            return (self.real_sign(x.args[0], a) % P, 0)
         if name == 'real': return (a[0], 0)
         if name == 'imag': return (a[1], 0)
         if name == 'conj': return (a[0], (-a[1]) % P)
@@ -635,6 +646,31 @@ class Point:
             v = (self.rng.randrange(2, P), 0 if real else self.rng.randrange(2, P))
             self.atomv[key] = v
         return v
+
+    def real_sign(self, node, gf_value):
+        """sign of a real quantity at this point: that of the point's real valuation (so that |x|, sign(x) and the comparisons agree with each other); the Legendre
+        character of the field value where the real valuation cannot be evaluated"""
+        if gf_value == (0, 0): return 0
+        if not getattr(self, 'order_ok', True):
+            return legendre(gf_value[0])
+        try:
+            f = self.order_eval(node)
+            if f == f and abs(f.imag) < 1e-300 and f.real != 0 and abs(f.real) != float('inf'):
+                return 1 if f.real > 0 else -1
+        except (AnalysisError, OverflowError, ValueError, ZeroDivisionError, RecursionError):
+            pass
+        return legendre(gf_value[0])
+
+    def order_eval(self, n):
+        """value of n at this point's real valuation (wide log-uniform sampling); separate from the narrow valuation used for diagnostics"""
+        if not hasattr(self, 'omemo'):
+            self.omemo = {}; self.oatom = {}
+        saved = (self.fmemo, self.fatom, getattr(self, '_wide', False))
+        self.fmemo, self.fatom, self._wide = self.omemo, self.oatom, True
+        try:
+            return self.fev(n)
+        finally:
+            self.fmemo, self.fatom, self._wide = saved
 
     # ---- float evaluation for diagnostics
     def fev(self, n):
@@ -661,7 +697,23 @@ class Point:
             v = self.fatom.get(name)
             if v is None:
                 r = self.rng
-                v = complex(r.uniform(0.3, 1.7), r.uniform(0.2, 0.9) if kind == 'complex' else 0.0)
+                if getattr(self, '_wide', False):
+                    orng = self.__dict__.setdefault('_orng', random.Random(hash((name, id(self))) & 0xffffffff))
+                    orng = random.Random((hash(name) ^ self.__dict__.setdefault('_oseed', r.randrange(1 << 30))) & 0xffffffff)
+                    if name == 'pi': v = complex(math.pi)
+                    elif name == 'float_eps': v = complex(2.220446049250313e-16)
+                    elif name.startswith('float_lognat'): v = complex(709.0)
+                    else:
+                        mag = 10 ** orng.uniform(-9, 9)
+                        if kind == 'pos':
+                            sgn = 1.0
+                        else:
+                            gv = self.atom_value(x)
+                            sgn = float(legendre(gv[0])) if (gv[1] == 0 and gv[0] != 0) else orng.choice((1.0, -1.0))       # the same sign the field value carries
+                            if gv == (0, 0): mag = 0.0
+                        v = complex(sgn * mag, (orng.choice((1.0, -1.0)) * 10 ** orng.uniform(-9, 9)) if kind == 'complex' else 0.0)
+                else:
+                    v = complex(r.uniform(0.3, 1.7), r.uniform(0.2, 0.9) if kind == 'complex' else 0.0)
                 self.fatom[name] = v
             return v
         a = [memo[t.uid] for t in x.args]
@@ -730,6 +782,8 @@ class Decider:
                     v = pt.ev(pn)
                     if v[1] != 0 or legendre(v[0]) != 1:
                         ok = False; break
+                if ok and self.positive:
+                    self._align(pt)
                 for nz in self.nonzero:
                     if pt.ev(nz) == (0, 0):
                         ok = False; break
@@ -737,6 +791,20 @@ class Decider:
                     self.points.append(pt)
             except Resample:
                 continue
+
+    def _align(self, pt):
+        """A region declared through `positive` is imposed on the field values (quadratic residues).  If the point's real valuation happens to lie in the region too, comparisons
+        and |x| are decided on it (consistent with each other); otherwise this point decides every sign through the Legendre character, which agrees with the declared
+        region by construction.  (A region of several narrow inequalities is rarely hit by a random real point; the field has no such difficulty.)"""
+        try:
+            pt.order_ok = True
+            pt.memo_backup = None
+            good = all(pt.real_sign(pn, pt.ev(pn)) == 1 for pn in self.positive)
+        except Exception:
+            good = False
+        if not good:
+            pt.order_ok = False
+            pt.memo = {k_: v_ for k_, v_ in pt.memo.items() if False}        # signs may have been used while probing: re-evaluate from scratch in Legendre mode
 
     def values(self, e):
         out = []
@@ -765,6 +833,8 @@ class Decider:
                 v = pt.ev(pn)
                 if v[1] != 0 or legendre(v[0]) != 1:
                     return None
+            if self.positive:
+                self._align(pt)
             for nz in self.nonzero:
                 if pt.ev(nz) == (0, 0):
                     return None
